@@ -869,6 +869,17 @@ func runC17(p *core.Prog, r *core.Result) {
 							if i >= len(site.Common().Args) {
 								continue
 							}
+							// the package path as a label names it - a constant, a result of the label package
+							// (Join, Clean, Parse), the Package field of a label - is the source: what it was computed
+							// from (directory names read from the file system) does not matter
+							if isLabelPackageValue(site.Common().Args[i]) {
+								o := originInfo{calls: map[*ssa.Call]bool{}, pkgPath: true}
+								for k := range local.calls {
+									o.calls[k] = true
+								}
+								out = append(out, o)
+								continue
+							}
 							for _, sub := range origins(site.Common().Args[i], depth+1) {
 								o := originInfo{calls: map[*ssa.Call]bool{}, pkgPath: local.pkgPath || sub.pkgPath}
 								for k := range local.calls {
@@ -1414,4 +1425,30 @@ func checkGlobResults(p *core.Prog, r *core.Result, compile *ssa.Function) {
 	}
 	r.Floor("R17.9", nFn, 2, "glob builtins (functions compiling an include and an exclude set)")
 	r.Floor("R17.9", nAdd, 2, "result additions in glob builtins")
+}
+
+// isLabelPackageValue: v is a package path as labels carry it - a string constant, the (first) result of a function of
+// package label, or the Package field of a label.
+func isLabelPackageValue(v ssa.Value) bool {
+	v = core.Unwrap(v)
+	if _, ok := core.ConstString(v); ok {
+		return true
+	}
+	if core.LoadOfField(v, pkgLabel, "Label", "Package") {
+		return true
+	}
+	var c *ssa.Call
+	switch x := v.(type) {
+	case *ssa.Extract:
+		if x.Index == 0 {
+			c, _ = x.Tuple.(*ssa.Call)
+		}
+	case *ssa.Call:
+		c = x
+	}
+	if c == nil {
+		return false
+	}
+	cal := core.Callee(c)
+	return cal != nil && cal.Pkg != nil && cal.Pkg.Pkg.Path() == pkgLabel
 }
